@@ -1217,6 +1217,18 @@ impl Dataset {
         write_config: &ManifestWriteConfig,
         commit_config: &CommitConfig,
     ) -> Result<()> {
+        // A table with stable row ids keeps them. Most callers pass the default write config
+        // (`use_stable_row_ids: false`); without inheriting the setting the feature flag would be
+        // recomputed from the fragments alone and dropped once the table has no fragments left.
+        let write_config = &ManifestWriteConfig {
+            auto_set_feature_flags: write_config.auto_set_feature_flags,
+            timestamp: write_config.timestamp,
+            use_stable_row_ids: write_config.use_stable_row_ids
+                || self.manifest.uses_stable_row_ids(),
+            use_legacy_format: write_config.use_legacy_format,
+            storage_format: write_config.storage_format.clone(),
+            disable_transaction_file: write_config.disable_transaction_file,
+        };
         let (manifest, manifest_location) = commit_transaction(
             self,
             self.object_store(),
